@@ -7,7 +7,12 @@ import "fmt"
 // pattern (select N j), so that any ground read of N instantiates it (arithmetic inside a trigger
 // would not e-match).
 func (g *Gen) seqJoin(st *State, name, aArr, aOff, aLen, bArr, bOff, bLen, newOff string) string {
-	n := g.newSym(name, "(Array Int Int)")
+	return g.seqJoinSort(st, name, "(Array Int Int)", aArr, aOff, aLen, bArr, bOff, bLen, newOff)
+}
+
+// seqJoinSort: seqJoin for an element array of the given sort (Int or Bool elements).
+func (g *Gen) seqJoinSort(st *State, name, sort, aArr, aOff, aLen, bArr, bOff, bLen, newOff string) string {
+	n := g.newSym(name, sort)
 	j := "j!" + name
 	g.assume(st, fmt.Sprintf("(forall ((%s Int)) (! (and (=> (and (<= %s %s) (< %s (+ %s %s))) (= (select %s %s) (select %s (+ %s (- %s %s))))) (=> (and (<= (+ %s %s) %s) (< %s (+ %s %s %s))) (= (select %s %s) (select %s (+ %s (- %s (+ %s %s))))))) :pattern ((select %s %s))))",
 		j,
